@@ -1,6 +1,7 @@
 (* C01 — parsing is faithful.  PARTIAL (lexical layer only): the two spellings of an identifier and the
    three spellings of a string are proved to yield the same token for every text, for the scanners the
-   regenerated grammar uses.  The rule-level and whole-document theorems (DESIGN 3.6, C01_faithful) are not
+   regenerated grammar uses; and (build layer, proofs/Counts.v) every list of the returned Database is, element by element and
+   in order, what was built from the blueprints of that kind — nothing dropped, nothing invented, nothing twice.  The rule-level and whole-document theorems (DESIGN 3.6, C01_faithful) are not
    proved; they rest on the tie (every generated document is parsed by the Coq model and by the
    implementation and compared on the full dump) and on the independent expected-content oracle. *)
 From PyDBML Require Import PyStr Py PP LexFacts GenGrammar.
@@ -37,3 +38,72 @@ Theorem C01_string_styles_partial :
                  (cSQ :: cSQ :: cSQ :: escape cSQ t ++ cSQ :: cSQ :: cSQ :: rest) = Some (t, rest)).
 Proof. exact (conj quoted_scan_single quoted_scan_triple). Qed.
 Print Assumptions C01_string_styles_partial.
+
+(* ---- build layer: each declared element exactly once and in source order ---- *)
+(* For every source text, options and (well-formed) heap on which PyDBMLParser.parse succeeds: the tables, enums, references,
+   groups and sticky notes of the returned database are, element by element and in order, the objects built from the table,
+   enum, reference, group and sticky-note blueprints the parse actions collected (references in the order parse_blueprint
+   registered them: the inline ones of a table when the table is registered, a standalone one at its own place); there is a
+   project exactly when a project blueprint was collected.  The hypothesis on the blueprints (no table whose alias equals its own full name) is the one of C05. *)
+From PyDBML Require Import Heap Classes Database Actions Build Entry ContainerInv ContainerFull TableInv BuildInv Counts.
+Theorem C01_database_lists_are_the_built_blueprints_in_order :
+  forall source allow sq dq h0 h1 d,
+    WW h0 -> (forall t tb, h_table h0 t = Some tb -> NoDup (names_of tb)) ->
+    (forall st, blueprints_of source allow h0 = (h0, Ok st) -> Forall good_table_bp (ps_tables st)) ->
+    parser_parse source allow sq dq h0 = (h1, Ok d) ->
+    exists st db, blueprints_of source allow h0 = (h0, Ok st) /\ h_database h1 d = Some db /\
+      Forall2 (built_by (build_table d)) (ps_tables st) (d_tables db) /\ Forall2 (built_by build_enum) (ps_enums st) (d_enums db) /\
+      Forall2 (built_by (build_reference d)) (ps_refs st) (d_refs db) /\ Forall2 (built_by (build_group d)) (ps_groups st) (d_table_groups db) /\
+      Forall2 (built_by build_sticky) (ps_stickies st) (d_sticky_notes db) /\ (d_project db = None <-> ps_project st = None).
+Proof. exact parser_parse_counts. Qed.
+Print Assumptions C01_database_lists_are_the_built_blueprints_in_order.
+
+Theorem C01_one_element_per_blueprint :
+  forall s allow sq dq h0 h1 dd,
+    WW h0 -> (forall t tb, h_table h0 t = Some tb -> NoDup (names_of tb)) -> Forall good_table_bp (ps_tables s) ->
+    build_database s allow sq dq h0 = (h1, Ok dd) ->
+    exists db, h_database h1 dd = Some db /\
+      length (d_tables db) = length (ps_tables s) /\ length (d_enums db) = length (ps_enums s) /\
+      length (d_refs db) = length (ps_refs s) /\ length (d_table_groups db) = length (ps_groups s) /\
+      length (d_sticky_notes db) = length (ps_stickies s) /\ (d_project db = None <-> ps_project s = None).
+Proof. exact build_database_lengths. Qed.
+Print Assumptions C01_one_element_per_blueprint.
+
+(* non-vacuity: an actual document (two tables, an inline and a standalone reference, an enum, a group, a note, a project) *)
+Definition c01_doc : pystr := s2l "Project p {
+ x: 'y'
+}
+Enum e {
+ a
+ b
+}
+Table t1 as A {
+ id int [pk]
+ k e
+}
+Table t2 {
+ id int [ref: > t1.id]
+ j int
+}
+Ref: t2.j > A.id
+TableGroup g {
+ t1
+ t2
+}
+Note n {
+ 'text'
+}".
+Example C01_counts_example :
+  match parser_parse c01_doc false 0 1 [] with
+  | (h1, Ok d) => match h_database h1 d, blueprints_of c01_doc false [] with
+                  | Some db, (_, Ok st) =>
+                      (length (d_tables db), length (d_enums db), length (d_refs db), length (d_table_groups db), length (d_sticky_notes db))
+                      = (2, 1, 2, 1, 1) /\
+                      (length (ps_tables st), length (ps_enums st), length (ps_refs st), length (ps_groups st), length (ps_stickies st))
+                      = (2, 1, 2, 1, 1) /\ d_project db <> None /\
+                      forallb (fun bp => match bp with PVBlue 7 _ => true | _ => false end) (ps_tables st) = true
+                  | _, _ => False
+                  end
+  | _ => False
+  end.
+Proof. vm_compute. repeat split; discriminate. Qed.
